@@ -55,8 +55,8 @@ def cases(draw):
     c["nseed"] = draw(st.integers(0, 2 ** 16))
     nh = ndays * 24
     c["nan_cells"] = draw(st.lists(st.tuples(st.integers(0, nh - 1), st.integers(0, 2)), max_size=30))
-    c["nan_blocks"] = draw(st.lists(st.tuples(st.integers(0, nh - 1), st.integers(1, 200), st.integers(0, 2)), max_size=4))
-    c["absent"] = draw(st.lists(st.tuples(st.integers(1, nh - 2), st.integers(1, 60)), max_size=4))
+    c["nan_blocks"] = draw(st.lists(st.tuples(st.integers(0, nh - 1), st.one_of(st.integers(1, 200), st.integers(200, 24 * 30)), st.integers(0, 2)), max_size=4))  # up to a month-long outage
+    c["absent"] = draw(st.lists(st.tuples(st.integers(1, nh - 2), st.one_of(st.integers(1, 60), st.integers(60, 24 * 20))), max_size=4))
     c["dups"] = draw(st.lists(st.tuples(st.integers(0, nh - 1), st.sampled_from(["after", "before_empty", "before_partial"])), max_size=4))
     c["zeros"] = draw(st.lists(st.integers(0, nh - 1), max_size=5))
     c["odd"] = draw(st.lists(st.tuples(st.integers(0, nh - 1), st.sampled_from([1e-6, 1e-300, -0.5, -1e-9, 1e9])), max_size=4))
